@@ -1,6 +1,7 @@
 package props
 
 import (
+	"encoding/json"
 	"fmt"
 	"strings"
 
@@ -118,6 +119,36 @@ func (c08) Generate(r *core.Rand, tier string, idx uint64) *core.Case {
 	c.Config["nDev"] = cfg.nDev
 	c.Config["cacheActor"] = cacheActor
 	return c
+}
+
+// cachedLastVerified reads, from the persistent cache commit cacheTip, the entry the cache
+// remembers as last verified for ref ("" if none). Used only to attribute a verdict difference
+// to the known retroactive-revocation finding.
+func cachedLastVerified(w *world.World, cacheTip, ref string) string {
+	if cacheTip == "" {
+		return ""
+	}
+	cm, err := w.St.CommitInfo(cacheTip)
+	if err != nil {
+		return ""
+	}
+	files, err := w.St.AllFiles(cm.Tree)
+	if err != nil {
+		return ""
+	}
+	blob, err := w.St.ReadBlob(files["persistentCache"])
+	if err != nil {
+		return ""
+	}
+	var pc struct {
+		LastVerifiedEntryForRef map[string]struct {
+			EntryID string `json:"entryID"`
+		} `json:"lastVerifiedEntryForRef"`
+	}
+	if json.Unmarshal(blob, &pc) != nil {
+		return ""
+	}
+	return pc.LastVerifiedEntryForRef[ref].EntryID
 }
 
 func refsExceptCache(w *world.World) string {
@@ -348,7 +379,22 @@ func (d c08) Execute(c *core.Case) *core.Result {
 				}
 				// attribution: the cache remembers the entry the actor's last successful full
 				// verification reached and resumes there; was an entry at or before it revoked since?
-				if cp, ok := checkpoint[vop.Ref]; ok && cur != "" && vop.Mode == "full" {
+				// (a failing verification stores its progress too, so the point is read from the cache
+				// content the run started with — for attribution only, never as an oracle)
+				if lv := cachedLastVerified(w, cur, vop.Ref); lv != "" && vop.Mode == "full" {
+					p := posOf(w, lv)
+					for j := p + 1; j < len(w.Entries) && p >= 0; j++ {
+						a := w.Entries[j]
+						if a.Kind != "annotation" || !a.Skip {
+							continue
+						}
+						for _, t := range a.Targets {
+							if q := posOf(w, t); q >= 0 && q <= p && w.Entries[q].Ref == vop.Ref {
+								feat = append(feat, "entry-before-cached-last-verified-revoked-afterwards")
+							}
+						}
+					}
+				} else if cp, ok := checkpoint[vop.Ref]; ok && cur != "" && vop.Mode == "full" {
 					if e, ok := w.ByOp[cp]; ok {
 						p := posOf(w, e.ID)
 						for j := checkpointLen[vop.Ref]; j < len(w.Entries) && p >= 0; j++ {
